@@ -27,7 +27,8 @@ MIRRORED = [('mitxgraders/helpers/calc/math_array.py', '*'),
             ('mitxgraders/helpers/calc/expressions.py', 'MathExpression.eval_negation'),
             ('mitxgraders/helpers/calc/expressions.py', 'MathExpression.eval_product'),
             ('mitxgraders/helpers/calc/expressions.py', 'MathExpression.eval_sum'),
-            ('mitxgraders/formulagrader/matrixgrader.py', 'MatrixGrader.check_response')]
+            ('mitxgraders/formulagrader/matrixgrader.py', 'MatrixGrader.check_response'),
+            ('mitxgraders/sampling.py', 'DependentSampler.compute_sample')]
 REFUTED = []
 TRUSTED = [
     'correspondence harness harness/props/c14.py (operand/outcome encoders, exception-message table, recorder wrapped around '
@@ -1501,45 +1502,168 @@ def formula_level(ctx, res, rng, rec):
 # ------------------------------------------------------------------------------------------------------------------
 # MatrixGrader verdicts with negative_powers=False (oracle only)
 # ------------------------------------------------------------------------------------------------------------------
-GRADER_INPUTS = ['A^-1', 'A^(-1)', 'A^-2', 'A^-1*A^3', '(A^2)^-1', 'A^-1.0', 'B^-1*A', '[[1,2],[3,4]]^-1', 'A*B^-2',
-                 'A^-(1)', '(A*B)^-1', 'A^2*A^-1']
+# Every input below contains a negative power of a square matrix with more than one element; {X} is replaced by the matrix names a
+# scenario offers.  'A^2*A^-1' / 'A^3*A^-2' would be CORRECT (answer 'A') if the switch were not in force.
+GRADER_INPUTS = ['{X}^-1', '{X}^(-1)', '{X}^-2', '{X}^-1*{X}^3', '({X}^2)^-1', '{X}^-1.0', 'B^-1*{X}', '[[1,2],[3,4]]^-1', '{X}*B^-2',
+                 '{X}^-(1)', '({X}*B)^-1', 'A^2*{X}^-1', 'A^3*A^-2', 'probe({X})^-1', 'probe(A)*{X}^-1', '{X}^-1*probe(A)',
+                 'probe(A^2)*A^-1']
+# inputs without any negative power: only the state of the switch is observed (through probe) while they are evaluated
+PROBE_INPUTS = ['probe(A)', 'probe(A)*B', 'probe(A+B)-B', 'A']
 
 
-def grader_case(inp, cfg):
-    from mitxgraders import MatrixGrader, RealMatrices
-    grader = MatrixGrader(answers='A', variables=['A', 'B'], max_array_dim=2,
-                          sample_from={'A': RealMatrices(shape=[2, 2]), 'B': RealMatrices(shape=[2, 2])},
-                          negative_powers=False, **cfg)
-    return grader(None, inp)
+class Probe:
+    """user-defined function handed to the grader: records MathArray._negative_powers at each call, returns its argument"""
+    def __init__(self):
+        self.seen = []
+
+    def __call__(self, x):
+        from mitxgraders.helpers.calc.math_array import MathArray
+        self.seen.append(MathArray._negative_powers)
+        return x
+
+
+def grader_scenarios():
+    """name -> (builder(cfg, probe) returning a one-argument grading call, matrix names to put into the inputs).
+    All graders have negative_powers=False; the scenarios differ in what else runs during a check."""
+    from mitxgraders import MatrixGrader, ListGrader, RealMatrices, DependentSampler
+    from mitxgraders.helpers.calc.math_array import MathArray
+
+    def mg(cfg, probe, **kw):
+        variables = kw.pop('variables', ['A', 'B'])
+        sample_from = {'A': RealMatrices(shape=[2, 2]), 'B': RealMatrices(shape=[2, 2])}
+        sample_from.update(kw.pop('sample_from', {}))
+        functions = {'probe': probe}
+        functions.update(kw.pop('user_functions', {}))
+        opts = dict(answers='A', variables=variables, max_array_dim=2, sample_from=sample_from, user_functions=functions,
+                    negative_powers=False)
+        opts.update(kw)
+        opts.update(cfg)
+        return MatrixGrader(**opts)
+
+    def single(**kw):
+        def build(cfg, probe):
+            g = mg(cfg, probe, **dict(kw))
+            return lambda inp: g(None, inp)
+        return build
+
+    def in_list(position):
+        def build(cfg, probe):
+            sub = mg(cfg, probe)
+            lg = ListGrader(answers=['A', 'sibling_1*B'] if position == 0 else ['B', 'sibling_1+A'], subgraders=sub, ordered=True)
+            return lambda inp: lg(None, [inp, 'A*B'] if position == 0 else ['B', inp])
+        return build
+
+    def two_graders(cfg, probe):
+        # an enabled grader is used between two calls of the disabled one
+        g_off = mg(cfg, probe)
+        g_on = mg({}, probe, negative_powers=True, answers='A^-1')
+
+        def call(inp):
+            g_on(None, 'A^-1')
+            return g_off(None, inp)
+        return call
+
+    return {
+        'plain': (single(), ['A']),
+        'dependent_sampler': (single(variables=['A', 'B', 'C'],
+                                     sample_from={'C': DependentSampler(depends=['A'], formula='2*A')}), ['A', 'C']),
+        'dependent_chain': (single(variables=['A', 'B', 'C', 'D'],
+                                   sample_from={'C': DependentSampler(depends=['A', 'B'], formula='A*B+B'),
+                                                'D': DependentSampler(depends=['C'], formula='C^2-A')}), ['A', 'D']),
+        'dependent_with_power': (single(variables=['A', 'B', 'C'],
+                                        sample_from={'C': DependentSampler(depends=['A'], formula='A^2')}), ['A', 'C']),
+        'array_constant': (single(user_constants={'M': MathArray([[1, 2], [3, 5]]), 'v': MathArray([1, 2])}), ['A', 'M']),
+        'array_function': (single(user_functions={'twice': lambda x: 2 * x}), ['A', 'twice(A)']),
+        'numbered_vars': (single(numbered_vars=['a'], sample_from={'a': RealMatrices(shape=[2, 2])}), ['A', 'a_{1}', 'a_{22}']),
+        'several_samples': (single(samples=4, failable_evals=1), ['A']),
+        'identity': (single(identity_dim=2), ['A', '(A+I)']),
+        'two_answers': (single(answers=('B', 'A')), ['A']),
+        'entry_partial_credit': (single(entry_partial_credit='proportional'), ['A']),
+        'listgrader_first_box': (in_list(0), ['A']),
+        'listgrader_sibling_box': (in_list(1), ['A']),
+        'after_enabled_grader': (two_graders, ['A']),
+    }
+
+
+GRADER_CFGS = [{}, {'suppress_matrix_messages': True}, {'shape_errors': False}]
+
+
+def refused(st, out, box=None):
+    """the input was refused: the call raised one of the library's errors (the student-facing MathArrayError normally; when the
+    input reaches another box as a sibling value the library reports the same refusal as a ConfigError -- the error CLASS of
+    sibling failures belongs to C09), or the box was graded wrong"""
+    from mitxgraders.exceptions import MITxError
+    if st == 'exc':
+        return isinstance(out, MITxError), '%s: %s escaped' % (type(out).__name__, out)
+    if st != 'ret' or not isinstance(out, dict):
+        return False, 'no result (%s)' % st
+    if 'input_list' in out:
+        return out['input_list'][box or 0].get('ok') is False, 'box %d graded %r' % ((box or 0) + 1, out['input_list'][box or 0])
+    return out.get('ok') is False, 'graded %r' % (out,)
+
+
+def grader_case(scenario, cfg, inp):
+    """one grading call with the switch off; returns (status, result, flag before, flag after, flags seen by probe)"""
+    from mitxgraders.helpers.calc.math_array import MathArray
+    build, _ = grader_scenarios()[scenario]
+    probe = Probe()
+    call = build(dict(cfg), probe)
+    before = MathArray._negative_powers
+    st, out = core.guarded(call, inp)
+    after = MathArray._negative_powers
+    MathArray._negative_powers = MathArray._default_negative_powers
+    return st, out, before, after, probe.seen
+
+
+def judge_grader(scenario, cfg, inp, negative):
+    """the oracle for one call.  Returns a list of (code, text)."""
+    st, out, before, after, seen = grader_case(scenario, cfg, inp)
+    bad = []
+    if negative:
+        ok, text = refused(st, out, box=1 if scenario == 'listgrader_sibling_box' else 0)
+        if ok and st == 'ret' and not cfg.get('suppress_matrix_messages'):
+            # graded wrong is a refusal only where the author asked for matrix messages to be suppressed; otherwise the
+            # expression must not have been evaluated at all
+            ok, text = False, text + ' (evaluated and graded instead of raising the error)'
+        if not ok:
+            bad.append(('negative-power-not-refused', '%s although negative powers are disabled' % text))
+
+    if any(seen):
+        bad.append(('switch-not-in-force', 'MathArray._negative_powers read True in %d of %d calls of a user function made while the '
+                    'student input was evaluated' % (sum(1 for x in seen if x), len(seen))))
+    if before != after:
+        bad.append(('switch-leaked', 'MathArray._negative_powers was %r before the call and %r after it' % (before, after)))
+    return bad, (st, out, seen)
 
 
 def grader_level(ctx, res, rng):
-    from mitxgraders.helpers.calc.math_array import MathArray
-    cfgs = [{}, {'suppress_matrix_messages': True}, {'shape_errors': False}]
-    n = 0
-    for inp in GRADER_INPUTS:
-        for cfg in cfgs:
-            st, out = core.guarded(grader_case, inp, cfg)
-            res.oracle_evals += 1
-            n += 1
-            bad = None
-            if st == 'ret':
-                if not (isinstance(out, dict) and out.get('ok') is False):
-                    bad = 'graded %r although negative powers are disabled' % (out,)
-            elif st == 'exc':
-                if not student_facing(out):
-                    bad = '%s: %s escaped' % (type(out).__name__, out)
-            else:
-                bad = 'timeout'
-            if MathArray._negative_powers is not True:
-                MathArray._negative_powers = True
-            if bad:
-                res.witnesses.append({'key': 'grader:%s:%r' % (inp, sorted(cfg.items())), 'kind': 'grader', 'code': 'negative-power-not-refused',
-                                      'input': inp, 'config': cfg,
-                                      'what': 'MatrixGrader(negative_powers=False%s) on %r: %s' %
-                                              (''.join(', %s=%r' % kv for kv in sorted(cfg.items())), inp, bad)})
-            res.nontrivial.add(('grader', inp, repr(sorted(cfg.items()))))
+    scenarios = grader_scenarios()
+    n = nprobe = 0
+    hist = {}
+    for name in sorted(scenarios):
+        _, names = scenarios[name]
+        for cfg in GRADER_CFGS:
+            cases = [(t.replace('{X}', x), True) for t in GRADER_INPUTS for x in names if '{X}' in t or x == names[0]]
+            cases += [(t, False) for t in PROBE_INPUTS]
+            if ctx['tier'] == 'quick' and cfg and not ctx.get('escalate'):
+                cases = [c for k, c in enumerate(cases) if (k + len(name)) % 3 == 0]      # full product only for the default config
+            for inp, negative in cases:
+                bad, (st, out, seen) = judge_grader(name, cfg, inp, negative)
+                res.oracle_evals += 1
+                n += 1
+                nprobe += len(seen)
+                hist[name] = hist.get(name, 0) + 1
+                for code, text in bad:
+                    res.witnesses.append({'key': 'grader:%s:%s:%r:%s' % (code, name, sorted(cfg.items()), inp), 'kind': 'grader',
+                                          'code': code, 'scenario': name, 'input': inp, 'config': cfg, 'negative': negative,
+                                          'what': 'MatrixGrader(negative_powers=False%s) [%s] on %r: %s' %
+                                                  (''.join(', %s=%r' % kv for kv in sorted(cfg.items())), name, inp, text)})
+                res.nontrivial.add(('grader', name, inp, repr(sorted(cfg.items()))))
     res.distribution['matrixgrader_calls'] = n
+    res.distribution['matrixgrader_calls_by_scenario'] = hist
+    res.distribution['matrixgrader_switch_observations'] = nprobe
+    res.samples.append({'matrixgrader_case': {'scenario': 'dependent_sampler', 'input': 'A^2*C^-1', 'config': {},
+                                              'observed': repr(grader_case('dependent_sampler', {}, 'A^2*C^-1')[:2])[:200]}})
 
 
 # ------------------------------------------------------------------------------------------------------------------
@@ -1626,11 +1750,10 @@ def replay(w):
             bad = st == 'ret' and repr(out)[:160] == w.get('observed', repr(out)[:160])
         return bad, 'evaluator(%r) with %r -> %s %r' % (w['formula'], w['variables'], st, repr(out)[:200])
     if kind == 'grader':
-        st, out = core.guarded(grader_case, w['input'], w['config'])
-        MathArray._negative_powers = True
-        bad = (st == 'ret' and not (isinstance(out, dict) and out.get('ok') is False)) or \
-              (st == 'exc' and not student_facing(out)) or st == 'timeout'
-        return bad, 'MatrixGrader(negative_powers=False, %r)(None, %r) -> %s %r' % (w['config'], w['input'], st, out)
+        bad, (st, out, seen) = judge_grader(w['scenario'], w['config'], w['input'], w.get('negative', True))
+        hit = [b for b in bad if b[0] == w.get('code')]
+        return bool(hit), 'MatrixGrader(negative_powers=False, %r) [%s] on %r -> %s %r; switch seen by user function: %r; verdict: %s' % (
+            w['config'], w['scenario'], w['input'], st, repr(out)[:200], seen, hit or 'satisfied')
     return False, 'unknown witness kind %r' % (kind,)
 
 
